@@ -965,6 +965,8 @@ def OP_RANDOM(tape: Tape, stack: Stack, cache: dict) -> None:
     """
     # size = int.from_bytes(tape.read(1), 'big')
     size = bytes_to_int(stack.get())
+    sert(0 <= size <= stack.max_item_size,
+        'OP_RANDOM size must be between 0 and the max stack item size')
     stack.put(token_bytes(size))
 
 def OP_RETURN(tape: Tape, stack: Stack, cache: dict) -> None:
